@@ -135,7 +135,7 @@ def build(flavour, want_tools=False, harness_units=("cmrh",), wraps=()):
             for old in os.listdir(d):
                 if old.startswith("cmrh-"):
                     os.remove(os.path.join(d, old))
-            hs = [os.path.join(VERIF, "harness", u + ".c") for u in ("cmrh", "ops_basic", "ops_tree", "ops_graph", "ops_sepa", "wrap")]
+            hs = [os.path.join(VERIF, "harness", u + ".c") for u in ("cmrh", "ops_basic", "ops_tree", "ops_graph", "ops_sepa", "ops_rel", "wrap")]
             hs = [x for x in hs if os.path.exists(x)]
             wrapflags = ["-Wl,--wrap=clock", "-Wl,--wrap=_CMRallocStack", "-Wl,--wrap=_CMRfreeStack"]
             rc, out = run(["gcc"] + cflags + hs + [lib, "-o", hexe + ".tmp"] + LINKFLAGS[flavour] + wrapflags + ["-lgmp", "-lm", "-lpthread"])
